@@ -64,8 +64,16 @@ func (vc *VC) havocEverything(why string, keepGhost bool) {
 	vc.nfresh++
 	ep := fmt.Sprintf("e%d", vc.nfresh)
 	oldAlloc := vc.get("alloc", "Int")
+	// immutable fields keep their values: pin them before the epoch changes
+	for k := range vc.immutableHeaps() {
+		if _, ok := vc.st.m[k]; !ok {
+			if srt, known := vc.p.storageSort[k]; known {
+				vc.st.m[k] = vc.get(k, srt)
+			}
+		}
+	}
 	for k := range vc.st.m {
-		if heapLike(k) && !(keepGhost && strings.HasPrefix(k, "G.")) {
+		if heapLike(k) && !(keepGhost && strings.HasPrefix(k, "G.")) && !vc.immutable[k] {
 			delete(vc.st.m, k)
 		}
 	}
@@ -1107,8 +1115,21 @@ func (vc *VC) hardcoded(fr *Frame, fn *ssa.Function, args []*Val, sig *types.Sig
 	case "(*sync.Cond).Signal", "(*sync.Cond).Broadcast":
 		return unit, true
 	}
-	if fn.Pkg != nil && fn.Pkg.Pkg.Path() == "sync/atomic" && fn.Signature.Recv() != nil && len(args) > 0 && args[0].Loc != nil && args[0].T == "" {
-		l := args[0].Loc
+	if fn.Pkg != nil && fn.Pkg.Pkg.Path() == "sync/atomic" && fn.Signature.Recv() != nil && len(args) > 0 {
+		var l *Loc
+		if args[0].Loc != nil && args[0].T == "" {
+			l = args[0].Loc
+		} else if pt, ok := args[0].Ty.Underlying().(*types.Pointer); ok && args[0].T != "" {
+			// a free-standing atomic value behind a pointer: a heap cell
+			if _, isAt := atomicContent(pt.Elem()); isAt {
+				vc.nilCheck(fr, args[0].T, pos, "atomic value")
+				hn, _ := vc.cellHeap(pt.Elem())
+				l = &Loc{Kind: RCell, Heap: hn, Base: args[0].T, RootT: pt.Elem()}
+			}
+		}
+		if l == nil {
+			return nil, false
+		}
 		ct, ok := atomicContent(l.targetType())
 		if !ok {
 			return nil, false
